@@ -206,6 +206,7 @@ def run(chk):
     plan = [('core-all', 'TokCore', 5 if quick else 6, False), ('core-guided', 'TokCore', 7 if quick else 9, True),
             ('wide-guided', 'TokWide', 6 if quick else 7, True), ('mix-guided', 'TokMix', 5 if quick else 6, True),
             ('wide-all', 'TokWide', 3 if quick else 4, False)]
+    MALFORMED = []
     for tag, toks, ml, guided in plan:
         res = tlc.run_tlc('MC_Expr', expr_cfg(toks, ml, guided), workers=16)
         chk.add_tlc(res)
@@ -214,6 +215,8 @@ def run(chk):
             chk.machinery(f'{tag}: parsed {len(emits)} emitted lines for {res.distinct} states')
         chk.notes.setdefault('instances', []).append({'tag': tag, 'tokens': toks, 'max_len': ml, 'guided': guided, 'strings': len(emits)})
         items = [(render(e['k']), e['r'], e['k']) for e in emits]
+        if not guided:
+            MALFORMED.extend(items)
         if guided:
             items += [(render(e['k'], compact=True), e['r'], e['k']) for e in emits]
         compare(chk, items, tag)
@@ -221,6 +224,20 @@ def run(chk):
         if pick:
             e = pick[len(pick) // 2]
             chk.sample({'instance': tag, 'text': render(e['k']), 'expected': e['r']})
+    # malformed text in every place a numeric expression is written: rejected there too (nothing of the line may be dropped silently)
+    bad = [it for it in MALFORMED if it[1] == 'E']
+    rng.shuffle(bad)
+    bad = bad[:150 if quick else 1500]
+    ctxs = ['.4byte {t}\n', '.byte 1, {t}\n', 'KQ = {t}\n.byte 1\n', '.align {t}\n.byte 1\n', '.org {t}\n.byte 1\n', '.fill 1, {t}\n', '.fill {t}, 1\n',
+            '.zero {t}\n', 'ld8 {t}\n', '#if {t}\n.byte 1\n#endif\n.byte 2\n']
+    jobs = [(c.format(t=tx), tx) for tx, _, _ in bad for c in ctxs if tx.strip()]
+    outs = runner.pmap(_e2e_src, [j[0] for j in jobs])
+    for (src, tx), o in zip(jobs, outs):
+        chk.traces += 1
+        if not o.startswith(('err', 'timeout')):
+            chk.violation(f'"{tx}" is not a well-formed expression, but the program {src!r} assembles (image {o})',
+                          {'config': carrier_yaml(), 'files': {'main.asm': src}}, 'rejected', o, {'kind': 'accepts-malformed-e2e'})
+    chk.notes['malformed_end_to_end'] = len(jobs)
     # literal notations
     res = tlc.run_tlc('Literals', 'SPECIFICATION Spec\nCONSTANTS MaxDigits = %d\nINVARIANT ValueBound\nINVARIANT Positional\nINVARIANT Emit\n'
                       % (3 if quick else 4), workers=4)
@@ -266,6 +283,11 @@ def run(chk):
     # values of 53..200 bits: exact quotients and truncation checked with limb arithmetic
     big_part(chk, 3200 if quick else 64000)
     chk.exhaustive = True
+
+
+def _e2e_src(src):
+    r = runner.run_case({'config': carrier_yaml(), 'files': {'main.asm': 'lab6 = 6\nlab5 = 5\n' + src}})
+    return r['image'].hex() if r.get('image') is not None else f'{r["status"]}: {(r.get("msg") or "")[:80]}'
 
 
 def _e2e(tx):
